@@ -377,7 +377,7 @@ Lemma sum64_gen : forall l acc,
 Proof.
   induction l as [|x l IH]; intros acc; cbn [fold_left list_sum fold_right].
   - now rewrite Z.add_0_r.
-  - rewrite wrap64_add, IH. f_equal. lia.
+  - rewrite wrap64_add, IH. f_equal. unfold list_sum. lia.
 Qed.
 
 Lemma sum64_wrap : forall l, sum64 l = wrap64 (list_sum l).
@@ -396,7 +396,7 @@ Proof.
   destruct vals as [|x r].
   - reflexivity.
   - destruct (sort (x :: r)) as [|m s] eqn:Es.
-    { apply Permutation_sym, Permutation_nil in HP. discriminate. }
+    { apply Permutation_nil in HP. discriminate. }
     unfold export_triple, spec_export. cbn [e_min e_max e_avg].
     assert (Hmin : m = list_min x r).
     { apply Z.le_antisymm.
@@ -410,8 +410,8 @@ Proof.
       - apply list_max_ge. apply (Permutation_in _ HP). apply last_in. congruence.
       - apply sorted_last_ge; [exact HS|].
         apply (Permutation_in _ (Permutation_sym HP)). apply list_max_in. }
-    rewrite Hmin, Hmax, sum64_wrap, (list_sum_perm _ _ HP), (wrap64_fits _ Hfit).
-    now rewrite (Permutation_length HP).
+    rewrite Hmax, sum64_wrap, (list_sum_perm _ _ HP), (wrap64_fits _ Hfit).
+    rewrite (Permutation_length HP). now rewrite <- Hmin.
 Qed.
 
 (* nothing but added values is exported: min and max are members of the list;
